@@ -49,7 +49,32 @@ def run_cmd(cmd, timeout=None, env=None):
         return -9, (e.stdout or b"").decode("utf-8", "replace") + "\n[timeout]"
 
 
+def fuzz_meta(path):
+    mp = path + ".meta.json"
+    if os.path.exists(mp):
+        try:
+            m = json.load(open(mp))
+            if m.get("fuzz_target"):
+                return m
+        except Exception:
+            pass
+    return None
+
+
+def replay_fuzz(binpath, target, path, timeout=120, extra=None):
+    env = dict(os.environ)
+    env["FUZZ_TARGET"] = target
+    env.pop("FUZZ_STATS", None)
+    env.setdefault("ASAN_OPTIONS", "detect_leaks=1:abort_on_error=0")
+    cmd = [binpath] + (extra or []) + [path]
+    return run_cmd(cmd, timeout=timeout, env=env)
+
+
 def replay_case(binpath, pid, path, known_ids, timeout=600):
+    fm = fuzz_meta(path)
+    if fm:
+        rc, out = replay_fuzz(binpath, fm["fuzz_target"], path)
+        return (0 if rc == 0 else 1), out
     mode = "replay-bytes" if path.endswith(".bin") else "replay"
     cmd = [binpath, "--prop", pid, "--mode", mode, "--case", path]
     if known_ids:
@@ -152,7 +177,7 @@ def cmd_check(args):
     default_engine = spec["jobs"][0]["engine"]
     if os.path.isdir(cdir):
         for fn in sorted(os.listdir(cdir)):
-            if not (fn.endswith(".json") or fn.endswith(".bin")):
+            if fn.endswith(".meta.json") or not (fn.endswith(".json") or fn.endswith(".bin")):
                 continue
             path = os.path.join(cdir, fn)
             eng = default_engine
@@ -201,10 +226,15 @@ def cmd_check(args):
 
     # ---- search tier --------------------------------------------------------------------------------
     jobs = []
+    fuzz_jobs = []
     for ji, j in enumerate(spec["jobs"]):
         if j["engine"] not in bins:
             continue
         cfg = j[tier]
+        if j.get("kind") == "libfuzzer":
+            for w in range(cfg.get("workers", 2)):
+                fuzz_jobs.append((j, ji, w, cfg))
+            continue
         nw = cfg.get("workers", NCPU)
         for w in range(nw):
             out = os.path.join(work, "sum_j%d_w%d.json" % (ji, w))
@@ -225,10 +255,39 @@ def cmd_check(args):
         rc, log = run_cmd(cmd, timeout=to, env=env)
         return job, rc, log, time.time() - t
 
+    def run_fuzz_job(fj):
+        j, ji, w, cfg = fj
+        tgt = j["target"]
+        d = os.path.join(work, "fz_%s_w%d" % (tgt, w))
+        cdir = os.path.join(d, "corpus")
+        os.makedirs(cdir, exist_ok=True)
+        seeds = os.path.join(ROOT, "corpus", pid, "seeds", tgt)
+        if os.path.isdir(seeds):
+            for fn in os.listdir(seeds):
+                shutil.copyfile(os.path.join(seeds, fn), os.path.join(cdir, fn))
+        env = dict(os.environ)
+        env["FUZZ_TARGET"] = tgt
+        env["FUZZ_STATS"] = os.path.join(d, "stats.json")
+        env.setdefault("ASAN_OPTIONS", "detect_leaks=1:abort_on_error=0")
+        fseed = derive_seed(seed, pid, ji, w) % 0x7FFFFFFF or 1
+        cmd = [bins[j["engine"]], "-seed=%d" % fseed, "-runs=%d" % cfg["runs"], "-max_len=%d" % cfg.get("max_len", 256), "-timeout=%d" % cfg.get("timeout", 10),
+               "-rss_limit_mb=3000", "-artifact_prefix=" + d + "/", "-print_final_stats=0", cdir]
+        dic = os.path.join(ROOT, "corpus", pid, "dict", tgt + ".dict")
+        if os.path.exists(dic):
+            cmd.insert(1, "-dict=" + dic)
+        t = time.time()
+        rc, log = run_cmd(cmd, timeout=cfg.get("wall", 1500), env=env)
+        return fj, rc, log, d, time.time() - t
+
     results = []
+    fuzz_results = []
     with ThreadPoolExecutor(max_workers=NCPU) as ex:
-        for r in ex.map(run_job, jobs):
-            results.append(r)
+        futs = [ex.submit(run_job, jb) for jb in jobs]
+        ffuts = [ex.submit(run_fuzz_job, fj) for fj in fuzz_jobs]
+        for f in futs:
+            results.append(f.result())
+        for f in ffuts:
+            fuzz_results.append(f.result())
 
     merged = {"evaluations": 0, "sub_evaluations": 0, "labels": {}, "counters": {}, "discards": {}, "excluded_known": {}, "samples": []}
     hashes = set()
@@ -276,6 +335,77 @@ def cmd_check(args):
             print("HARNESS-ERROR", summ["error"])
             return 2
 
+    # ---- libFuzzer campaigns -----------------------------------------------------------------------
+    for (fj, rc, log, d, wall_f) in fuzz_results:
+        j, ji, w, cfg = fj
+        tgt = j["target"]
+        sp = os.path.join(d, "stats.json")
+        if os.path.exists(sp):
+            try:
+                stt = json.load(open(sp))
+                merged["evaluations"] += stt.get("evaluations", 0)
+                for kk, vv in stt.get("labels", {}).items():
+                    merged["labels"]["%s:%s" % (tgt, kk)] = merged["labels"].get("%s:%s" % (tgt, kk), 0) + vv
+                if len(merged["samples"]) < 8:
+                    for smp in stt.get("samples", [])[:1]:
+                        smp["fuzz_target"] = tgt
+                        merged["samples"].append(smp)
+                hp = sp + ".hashes"
+                if os.path.exists(hp):
+                    a = array.array("Q")
+                    with open(hp, "rb") as f:
+                        a.frombytes(f.read())
+                    hashes.update((h ^ zlib.crc32(tgt.encode())) for h in a)
+            except Exception:
+                pass
+        if rc == -9:
+            inconclusive.append("libFuzzer campaign %s w%d hit its wall-clock ceiling (inconclusive)" % (tgt, w))
+        arts = sorted(fn for fn in os.listdir(d) if fn.startswith(("crash-", "leak-", "timeout-")))
+        if rc != 0 and rc != -9 and not arts:
+            head = [l for l in log.splitlines() if "ERROR" in l or "SUMMARY" in l][:2]
+            if "out-of-memory" in log or "oom-" in " ".join(os.listdir(d)):
+                inconclusive.append("libFuzzer campaign %s w%d stopped on an out-of-memory unit (load noise, not a violation)" % (tgt, w))
+            else:
+                print("HARNESS-ERROR libFuzzer campaign %s ended with exit %d and no artifact: %s" % (tgt, rc, " | ".join(h[:200] for h in head)))
+                print(log[-2000:])
+                return 2
+        for fn in arts:
+            ap = os.path.join(d, fn)
+            if fn.startswith("timeout-"):
+                hung = 0
+                for _ in range(3):
+                    r2, o2 = replay_fuzz(bins[j["engine"]], tgt, ap, timeout=400, extra=["-timeout=100"])
+                    if r2 != 0 and ("timeout" in o2 or r2 == -9):
+                        hung += 1
+                if hung < 3:
+                    inconclusive.append("libFuzzer timeout artifact %s did not hang with a 10x limit (%d/3): load noise" % (fn, hung))
+                    continue
+                what = "parse does not terminate (reproduced 3x with a 100 s limit)"
+            else:
+                okc = 0
+                o2 = ""
+                for _ in range(3):
+                    r2, o2 = replay_fuzz(bins[j["engine"]], tgt, ap)
+                    if r2 != 0:
+                        okc += 1
+                if okc < 3:
+                    notes.append("FLAKY-NOT-REPORTED %s (%d/3 reproductions)" % (ap, okc))
+                    continue
+                # minimise (bounded)
+                mp = ap + ".min"
+                replay_fuzz(bins[j["engine"]], tgt, ap, timeout=120, extra=["-minimize_crash=1", "-runs=20000", "-max_total_time=30", "-exact_artifact_path=" + mp])
+                if os.path.exists(mp) and os.path.getsize(mp) <= os.path.getsize(ap):
+                    r3, o3 = replay_fuzz(bins[j["engine"]], tgt, mp)
+                    if r3 != 0:
+                        ap, o2 = mp, o3
+                heads = [l for l in o2.splitlines() if "C06-VIOLATION" in l or "ERROR: AddressSanitizer" in l or "runtime error:" in l or "SUMMARY" in l]
+                what = (heads[0][:300] if heads else "target aborted")
+            h = hashlib.sha1(open(ap, "rb").read()).hexdigest()[:12]
+            dst = os.path.join(viol_dir, "%s_%s_%s.bin" % (pid, tgt, h))
+            shutil.copyfile(ap, dst)
+            json.dump({"engine": j["engine"], "prop": pid, "check": pid, "fuzz_target": tgt}, open(dst + ".meta.json", "w"))
+            violations.append((what, dst, ""))
+
     wall = time.time() - t0
     minimum = spec.get("min_nontrivial", {}).get(tier, 2)
     status = 0
@@ -313,7 +443,7 @@ def cmd_check(args):
             "known_finding_lines": known_lines,
             "inconclusive": inconclusive,
             "notes": notes,
-            "workers": len(jobs),
+            "workers": len(jobs) + len(fuzz_jobs),
             "exhaustive": bool(spec.get("exhaustive", False)),
         },
         "assumptions": spec.get("assumptions", []),
@@ -360,7 +490,7 @@ def cmd_replay(args):
         print(log[-4000:])
         return 2
     rc, out = replay_case(bp, eprop, path, [])
-    print(out[:6000])
+    print(out[-6000:] if fuzz_meta(path) else out[:6000])
     return 1 if rc not in (0, 3, 4) else 0
 
 
